@@ -1025,7 +1025,7 @@ func c33(r *vkit.Run) {
 		r.SetMinDistinct(0)
 		return
 	}
-	n := envN(r.N(640, 6400))
+	n := envN(r.N(400, 6000))
 	for phase := 0; phase < 2; phase++ {
 		large := phase == 1
 		bfe_http2.VerifSetLargeConnRecvWindow(large)
@@ -1033,7 +1033,7 @@ func c33(r *vkit.Run) {
 		if large {
 			cnt = n / 4
 		}
-		vkit.Parallel(cnt, 32, func(i int) {
+		vkit.Parallel(cnt, 96, func(i int) {
 			idx := i
 			if large {
 				idx += 10000000
